@@ -106,6 +106,11 @@ def _env_field_written(prog, func, node, fld, al):
                 return True
         # chained assignment  a = b = c : the inner assignment is its own node
         return False
+    if k == "mcall" and node.get("ext") and node.get("mconst") is False and node.get("obj") is not None and node.get("n") in ("clear", "assign", "swap", "resize"):
+        # a library container of the session emptied / replaced in place
+        for p in astq.paths(node["obj"], al):
+            if tuple(x for x in p[1:] if x not in ("*", "[]")) == (fld,):
+                return True
     if astq.is_call(node) and node.get("cid") and prog.resolve(node["cid"]):
         for p in prog.call_effects(func, node):
             if p[0][0] == "parm" and tuple(x for x in p[1:] if x not in ("*", "[]"))[:1] == (fld,):
